@@ -58,6 +58,41 @@ def rfc4648Encode : List Nat → List Nat
     b64Char (a / 4) :: b64Char (a % 4 * 16 + b / 16) :: b64Char (b % 16 * 4 + c / 64) :: b64Char (c % 64) ::
       rfc4648Encode rest
 
+/-- inverse of table 1: the 6-bit value of an alphabet character, `none` for every other byte -/
+def b64Val? (ch : Nat) : Option Nat :=
+  if 65 ≤ ch ∧ ch ≤ 90 then some (ch - 65)
+  else if 97 ≤ ch ∧ ch ≤ 122 then some (ch - 71)
+  else if 48 ≤ ch ∧ ch ≤ 57 then some (ch + 4)
+  else if ch = 43 then some 62
+  else if ch = 47 then some 63
+  else none
+
+/-- the 6-bit values in front of the first `=` (everything after it is ignored);
+    `none` when a byte outside the alphabet comes before any `=` -/
+def b64Scan : List Nat → Option (List Nat)
+  | [] => some []
+  | b :: rest =>
+    if b = 61 then some []
+    else match b64Val? b with
+      | none => none
+      | some v => (b64Scan rest).map (v :: ·)
+
+/-- the complete bytes of the concatenated 6-bit values (a trailing incomplete byte is dropped) -/
+def decodeVals : List Nat → List Nat
+  | a :: b :: c :: d :: rest => (a * 4 + b / 16) :: (b % 16 * 16 + c / 4) :: (c % 4 * 64 + d) :: decodeVals rest
+  | [a, b, c] => [a * 4 + b / 16, b % 16 * 16 + c / 4]
+  | [a, b] => [a * 4 + b / 16]
+  | _ => []
+
+/-- what `String::fromBase64` returns for an ARBITRARY byte string: the empty string when the length is
+    not a multiple of four or a byte outside the alphabet precedes the first `=`, otherwise the complete
+    bytes encoded by the symbols in front of the first `=` -/
+def b64Decode (inp : List Nat) : List Nat :=
+  if inp.length % 4 ≠ 0 then []
+  else match b64Scan inp with
+    | none => []
+    | some vs => decodeVals vs
+
 /-- value of a decimal numeral given as ASCII digits, most significant first -/
 def decimalValue (ds : List Nat) : Nat := ds.foldl (fun acc d => acc * 10 + (d - 48)) 0
 
